@@ -35,6 +35,8 @@ type vfSideCfg struct {
 	NetworkTypes []NetworkType
 	TieBreaker   uint64
 	Ufrag, Pwd   string
+	NilDisc      bool // leave DisconnectedTimeout unset: the documented default applies (5 s, lite 10 s); DiscTimeout is set to it
+	NilFail      bool // leave FailedTimeout unset: default 25 s; FailTimeout is set to it
 	TCPPassive   bool // also gather ICE-TCP passive host candidates through the simulated TCP mux (active TCP disabled)
 }
 
@@ -88,6 +90,7 @@ type vfSession struct {
 	beforeStart    func() // optional: runs in setupPair after gathering, before the agents are started
 	afterRegather  func() // optional: runs in coordinatedRestart after both sides regathered, before remote credentials are set again
 	forgeValidTCP  bool   // C02: the next forged message is a valid check from a new TCP peer address to a TCP passive candidate
+	peerMute       bool   // C03: the scripted peer withholds every response
 	forgeUnstarted bool   // C02: forged messages may also be injected into an agent that was not started yet
 	e              *vfEnv
 	r              *vfResult
@@ -189,6 +192,15 @@ func (s *vfSession) newSide(cfg vfSideCfg) (*vfSide, error) {
 	if nts == nil {
 		nts = []NetworkType{NetworkTypeUDP4, NetworkTypeUDP6}
 	}
+	if cfg.NilDisc {
+		cfg.DiscTimeout = 5 * time.Second
+		if cfg.Lite {
+			cfg.DiscTimeout = 10 * time.Second
+		}
+	}
+	if cfg.NilFail {
+		cfg.FailTimeout = 25 * time.Second
+	}
 	dt, ft := cfg.DiscTimeout, cfg.FailTimeout
 	ac := &AgentConfig{
 		Net: vfSimpleNet(s.sw, cfg.Name, cfg.IPs...), NetworkTypes: nts,
@@ -203,6 +215,12 @@ func (s *vfSession) newSide(cfg vfSideCfg) (*vfSide, error) {
 		ac.NetworkTypes = append(append([]NetworkType{}, nts...), NetworkTypeTCP4)
 		ac.TCPMux = &vfSimTCPMux{sw: s.sw, owner: cfg.Name}
 		ac.DisableActiveTCP = true
+	}
+	if cfg.NilDisc {
+		ac.DisconnectedTimeout = nil
+	}
+	if cfg.NilFail {
+		ac.FailedTimeout = nil
 	}
 	x := &vfSide{cfg: cfg, name: cfg.Name, sess: s, pairAddr: map[uint64]string{}, told: map[string]bool{}, filtered: map[string]bool{}}
 	if cfg.RemoteFilter != nil {
